@@ -83,7 +83,21 @@ def _undecodable(src: str):
     return src
 
 
+def _stale(all_files: dict) -> dict:
+    if STALE_OUTPUT["on"]:
+        junk = bytes([0xCC]) * 0x9000 + b"EOF" + bytes(range(256)) * 64
+        all_files = dict(all_files)
+        for name in ("out.ips", "out.sfc"):
+            all_files[name] = junk
+    return all_files
+
+
 def laid_out(files: dict | None, src: str, layout: str) -> tuple[dict, str]:
+    all_files, spath = _laid_out(files, src, layout)
+    return _stale(all_files), spath
+
+
+def _laid_out(files: dict | None, src: str, layout: str) -> tuple[dict, str]:
     """layout 'cwd': the source is ./t.s; 'subdir': the source is proj/src/t.s (named relative to the working directory) and a decoy
     of every referenced file stands next to it - quoted paths stay relative to the working directory, as for the in-memory API."""
     all_files = dict(files or {})
@@ -141,6 +155,8 @@ def file_api(kind: str, src: str, files: dict | None = None, mapping: str | None
     return fr
 
 
+STALE_OUTPUT = {"on": False}      # a file from an earlier build already exists at the output path: the build replaces it
+VERBOSE = {"on": False}
 DUMP_SYMBOLS = {"on": False}      # C12 switches the diagnostic flag on for some runs: it is no input of the assembly
 
 
@@ -148,6 +164,8 @@ def cli_args(fmt: str, mapping: str | None, copier: bool, defines: list[str] | N
     args = [spath, "-o", out, "-f", fmt]
     if DUMP_SYMBOLS["on"]:
         args.append("--dump-symbols")
+    if VERBOSE["on"]:
+        args.append("--verbose")
     if mapping is not None:
         args += ["-m", mapping]
     if copier:
